@@ -1,6 +1,7 @@
 (** GENERATED on every run by tools/goextract (exprs.go) from /repo.  Do not edit.
 *)
-From Coq Require Import ZArith Bool.
+From Coq Require Import ZArith Bool List.
+From TR Require Import Lib.GoLists.
 Open Scope Z_scope.
 Open Scope bool_scope.
 
